@@ -41,6 +41,25 @@ func checkC01(w *Workload) *Outcome {
 				return viol("C01/mismatch", "record %d of %d differs: %s (want vs got)", i, n, d)
 			}
 		}
+		// scanned records do not share memory with each other: overwriting everything reachable from one of them
+		// (as a caller owning that record may) leaves the others as they were
+		if len(govals) >= 2 {
+			for _, victim := range []int{0, len(govals) - 1} {
+				vt.Mutate(f.Root, govals[victim].Elem())
+				for i, gv := range govals {
+					if i == victim {
+						continue
+					}
+					v, _ := vt.Extract(f.Root, gv.Elem())
+					if d := vt.Diff(f.Root, w.Records[i], v, ""); d != "" {
+						return viol("C01/records-share-memory", "record %d changed when the caller overwrote record %d, which it had scanned into its own struct: %s", i, victim, d)
+					}
+				}
+				// restore the victim for the checks below
+				fresh := vt.Build(f.Root, w.Records[victim], false)
+				govals[victim].Elem().Set(fresh)
+			}
+		}
 		// records already scanned are not changed by later reads
 		for i, gv := range govals {
 			v, zero := vt.Extract(f.Root, gv.Elem())
@@ -60,6 +79,7 @@ var c01Fixtures = []string{"flat24", "nest", "tiny", "rep3"}
 func TestC01(t *testing.T) {
 	cfg := wlCfg{fixtures: c01Fixtures, maxRecs: envInt("VERIF_MAXRECS", 150), gen: vt.DefaultGen}
 	cfg.gen.LongList = 700
+	cfg.gen.HugeStr = 70000
 	cfg.bigPct = 3
 	rapid.Check(t, func(t *rapid.T) {
 		w := genWorkload(t, cfg)
